@@ -404,6 +404,7 @@ func substVal(v Val, name string, c Term) Val {
 }
 
 func (vc *VC) verifyRun(fn *ssa.Function, fc *FuncContract, key, caseName string, rep *FuncReport) {
+	vc.steps = 0 // the step budget is per run: one function leaving the subset must not fail the others
 	vc.curFunc = key
 	if caseName != "" {
 		vc.curFunc = key + "[" + caseName + "]"
